@@ -31,7 +31,7 @@ def run(ctx):
         if c.ranges and any(dg.suppressed(c, x) for x in c.conflicts) and any(not dg.suppressed(c, x) for x in c.conflicts):
             nontriv.add(c.line())
     ctx.obligation("ground-truth oracle on the real engine: shown locations == unsuppressed conflicts, each once, for both grouping values", not bad)
-    nm = 6 if ctx.tier == "quick" else 60
+    nm = 16 if ctx.tier == "quick" else 100
     total, wbad, samples = nolint_suite.run_suite(ctx, nm)
     ctx.obligation("whole tool: %d expectations over %d generated modules (nolint spellings and placements, grouping on/off, cross-package report into a nolinted upstream line)" % (total, nm), total > 0 and not wbad)
     # known finding F33: under `go vet -vettool` (one process per package, started in the package's directory) file names
@@ -62,6 +62,9 @@ def run(ctx):
         else:
             ctx.violation("govet-nolint", "C11 fails under go vet -vettool: the nolint comment of a/x.go hides the diagnostic of b/x.go:12 (corpus/c11kf); without the comment it is reported\n%s" % text)
     ctx.obligation("go vet -vettool on corpus/c11kf: the control without the nolint comment reports b/x.go:12", shown_ctl)
+    # Go-source corpus: regression programs of repaired findings (//line directives, directive spellings)
+    from . import markers
+    markers.corpus_modules(ctx, "c11", "nolint under //line directives; directive spellings", flagsets=(None, {"group-error-messages": "false"}))
     ctx.coverage.update({"evaluations": len(res["cases"]) * 2 + total, "distinct_nontrivial": len(nontriv),
                          "rule": "synthetic conflict sets (1-9 conflicts, shared/unshared nil sources, 0-3 nolint ranges, grouping on/off, test-file filter); "
                                  "non-trivial = some conflict suppressed and some not; distinct by case line; plus generated Go modules through the whole tool"})
